@@ -26,6 +26,7 @@ var universe = []srv.Key{
 	{ID: "c", Cipher: "aes-128-gcm", Secret: "s-c"},
 	{ID: "d", Cipher: "aes-192-gcm", Secret: "s-b"}, // same secret as "b", other cipher
 	{ID: "a", Cipher: "chacha20-ietf-poly1305", Secret: "s-a-second"}, // same ID and cipher as "a", another secret (a second device of one user)
+	{ID: "a-alt", Cipher: "AEAD_CHACHA20_POLY1305", Secret: "s-a"},    // same cipher and secret as "a", the cipher written in its other spelling
 }
 
 var foreign = srv.Key{ID: "zz", Cipher: "aes-256-gcm", Secret: "not-configured"}
@@ -38,7 +39,7 @@ func keys(idx ...int) []srv.Key {
 	return out
 }
 
-var keySets = [][]srv.Key{keys(0), keys(1), keys(0, 1), keys(0, 2), keys(2, 0), keys(1, 4), keys(3), keys(0, 1, 3), keys(0, 2, 1), keys(0, 5)}
+var keySets = [][]srv.Key{keys(0), keys(1), keys(0, 1), keys(0, 2), keys(2, 0), keys(1, 4), keys(3), keys(0, 1, 3), keys(0, 2, 1), keys(0, 5), keys(0, 6, 1), keys(6, 2)}
 
 var lnSets = [][]srv.Ln{
 	{{Type: "tcp", Addr: "127.0.0.1:9000"}},
@@ -219,6 +220,68 @@ func scenario(c srv.Cfg) *engine.Scenario {
 		b, _ := json.Marshal(c)
 		for _, f := range fs {
 			f.Msg += " config=" + string(b)
+		}
+		return obs, true, fs
+	}
+	return sc
+}
+
+// afterReload: the binding of keys to listeners is that of the configuration in force: boot X,
+// reload to Y (addresses change owner, formats change), then the whole matrix of Y.
+type reloadCase struct {
+	X srv.Cfg `json:"boot"`
+	Y srv.Cfg `json:"reload_to"`
+}
+
+func reloadCases() []reloadCase {
+	l0 := []srv.Ln{{Type: "tcp", Addr: "127.0.0.1:9000"}, {Type: "udp", Addr: "127.0.0.1:9000"}}
+	l1 := []srv.Ln{{Type: "tcp", Addr: "127.0.0.1:9002"}, {Type: "udp", Addr: "127.0.0.1:9003"}}
+	two := func(k0, k1 []srv.Key) srv.Cfg {
+		return srv.Cfg{Services: []srv.Svc{{Listeners: l0, Keys: k0}, {Listeners: l1, Keys: k1}}}
+	}
+	leg := srv.Cfg{Legacy: []srv.Legacy{{Key: universe[1], Port: 9005}, {Key: universe[3], Port: 9006}}}
+	return []reloadCase{
+		{two(keys(0), keys(1, 3)), two(keys(1, 3), keys(0))}, // the two services swap their addresses
+		{two(keys(0, 1), keys(3)), two(keys(3), keys(4))},
+		{two(keys(0), keys(1)), leg},
+		{leg, two(keys(0), keys(1))},
+	}
+}
+
+func reloadScenario(rc reloadCase) *engine.Scenario {
+	var findings []*engine.Finding
+	var obs string
+	sc := &engine.Scenario{Name: "config-after-reload", Opt: vrt.Options{Horizon: 24 * time.Hour}}
+	sc.Body = func() {
+		findings, obs = nil, ""
+		add := func(sig, msg string) {
+			for _, f := range findings {
+				if f.Sig == sig {
+					return
+				}
+			}
+			findings = append(findings, &engine.Finding{Sig: sig, Msg: msg})
+		}
+		w := srv.NewWorld()
+		if err := w.Boot(rc.X, 0); err != nil {
+			add("valid-config-rejected", "a valid configuration failed to load: "+err.Error())
+			return
+		}
+		if w.Reload(rc.Y) {
+			add("valid-reload-failed", "the reload to a valid configuration failed")
+			return
+		}
+		obs = Matrix(w, rc.Y, 1, add)
+		if err := w.Shutdown(); err != nil {
+			add("stop-error", err.Error())
+		}
+	}
+	sc.Check = func(x *vrt.Exec) (string, bool, []*engine.Finding) {
+		fs := hk.Generic(x, hk.Opts{})
+		fs = append(fs, findings...)
+		b, _ := json.Marshal(rc)
+		for _, f := range fs {
+			f.Msg += " case=" + string(b)
 		}
 		return obs, true, fs
 	}
@@ -409,6 +472,11 @@ func init() {
 		for _, sc := range concScenarios() {
 			engine.ExploreS(ctx, sc, engine.SConfig{Bound: bound, Shard: ctx.Shard, NShards: ctx.NShards, Deadline: ctx.Deadline})
 		}
+		for i, rc := range reloadCases() {
+			if ctx.Mine(int64(i)) {
+				ctx.RunCase("config-after-reload", "E", reloadScenario(rc), rc, nil)
+			}
+		}
 		cfgs := Configs()
 		step := 3
 		if ctx.Tier == "thorough" {
@@ -431,6 +499,14 @@ func init() {
 	hk.Replayers["C09"] = func(ctx *engine.Ctx, rp engine.Replay) []*engine.Finding {
 		if strings.HasPrefix(rp.Unit, "config-concurrent") {
 			return engine.ReplayScenario(concScenarios(), rp)
+		}
+		if rp.Unit == "config-after-reload" {
+			var rc reloadCase
+			if err := json.Unmarshal(rp.Input, &rc); err != nil {
+				return []*engine.Finding{{Sig: "BROKEN:bad-input", Msg: err.Error()}}
+			}
+			rp.Choices = nil
+			return engine.ReplayCase("config-after-reload", reloadScenario(rc), rp)
 		}
 		var c srv.Cfg
 		if err := json.Unmarshal(rp.Input, &c); err != nil {
